@@ -409,12 +409,30 @@ def duration_from_secs(ex, st, info, args):
     return t_mk('Duration', to_bv(args[0]), z3.BitVecVal(0, 32))
 
 
+_DIVN = [0]
+
+
 def _dur_from(name, per_sec):
     def f(ex, st, info, args):
         x = to_bv(args[0])
         x = z3.ZeroExt(64 - x.size(), x) if x.size() < 64 else z3.Extract(63, 0, x)
         d = z3.BitVecVal(per_sec, 64)
-        return t_mk('Duration', z3.UDiv(x, d), z3.Extract(31, 0, z3.URem(x, d) * z3.BitVecVal(NS // per_sec, 64)))
+        xs = z3.simplify(x)
+        if z3.is_bv_value(xs):
+            return t_mk('Duration', z3.UDiv(xs, d), z3.Extract(31, 0, z3.URem(xs, d) * z3.BitVecVal(NS // per_sec, 64)))
+        # symbolic: quotient and remainder as fresh variables tied by the division lemma x = q*d + r, r < d, no wrap
+        # (a 64-bit division by a constant is far harder for the bit-blaster than this multiplication)
+        _DIVN[0] += 1
+        q = z3.BitVec('div!q%d' % _DIVN[0], 64)
+        r = z3.BitVec('div!r%d' % _DIVN[0], 64)
+        st.pc.append(z3.And(x == q * d + r, z3.ULT(r, d), z3.ULE(q, z3.BitVecVal(((1 << 64) - 1) // per_sec, 64))))
+        # a valid consequence the bit-blaster does not find by itself: if x is y * d without wrap-around, then q = y
+        if z3.is_app_of(xs, z3.Z3_OP_BMUL) and xs.num_args() == 2:
+            a0, a1 = xs.arg(0), xs.arg(1)
+            y = a1 if (z3.is_bv_value(a0) and a0.as_long() == per_sec) else (a0 if (z3.is_bv_value(a1) and a1.as_long() == per_sec) else None)
+            if y is not None:
+                st.pc.append(z3.Implies(z3.ULE(y, z3.BitVecVal(((1 << 64) - 1) // per_sec, 64)), z3.And(q == y, r == 0)))
+        return t_mk('Duration', q, z3.Extract(31, 0, r * z3.BitVecVal(NS // per_sec, 64)))
     B.paths['Duration::' + name] = f
 
 
